@@ -227,6 +227,17 @@ func ExecSched(sc sim.Script) *sim.Outcome {
 				case "save":
 					record = false
 					t.mpt.SaveChanges(context.Background(), saveDB, false)
+				case "savecancel":
+					// a save abandoned by its caller (context already cancelled): SaveChanges returns while its
+					// writer goroutine still works on the collected changes; the task waits for that goroutine
+					// through a channel the race detector cannot see, then goes on changing the trie
+					record = false
+					ctx, cancel := context.WithCancel(context.Background())
+					cancel()
+					o := simrt.NewOpaque()
+					t.mpt.SaveChanges(ctx, &signalDB{NodeDB: saveDB, o: o}, false)
+					o.Wait()
+					o.Close()
 				case "root":
 					record = false
 					t.mpt.GetRoot()
@@ -334,6 +345,18 @@ func ExecSched(sc sim.Script) *sim.Outcome {
 		}
 	}
 	return finishSched(w, res)
+}
+
+// signalDB tells the waiting task when SaveChanges' writer goroutine has delivered its batch.
+type signalDB struct {
+	util.NodeDB
+	o *simrt.Opaque
+}
+
+func (s *signalDB) MultiPutNode(keys []util.Key, nodes []util.Node) error {
+	err := s.NodeDB.MultiPutNode(keys, nodes)
+	s.o.Signal()
+	return err
 }
 
 func finishSched(w *world, res *sched.Result) *sim.Outcome {
